@@ -34,6 +34,7 @@ type Parser struct {
 	line      int
 	conds     []bool
 	errs      []error
+	including []string // files currently being included (innermost last)
 }
 
 // New creates a new inputrc parser.
@@ -358,6 +359,18 @@ func (p *Parser) do(handler Handler, keyword, val string) error {
 		}
 
 		path := expandIncludePath(val)
+
+		// A file that (directly or through other files) includes
+		// itself would otherwise be parsed again without bound.
+		if path == expandIncludePath(p.name) || contains(p.including, path) {
+			return &ParseError{
+				Name: p.name,
+				Line: p.line,
+				Text: keyword + " " + val,
+				Err:  ErrIncludeCycle,
+			}
+		}
+
 		buf, err := handler.ReadFile(path)
 
 		switch {
@@ -367,7 +380,9 @@ func (p *Parser) do(handler Handler, keyword, val string) error {
 			return err
 		}
 
-		return Parse(bytes.NewReader(buf), handler, WithName(val), WithApp(p.app), WithTerm(p.term), WithMode(p.mode))
+		including := append(append([]string{}, p.including...), expandIncludePath(p.name), path)
+
+		return Parse(bytes.NewReader(buf), handler, WithName(val), WithApp(p.app), WithTerm(p.term), WithMode(p.mode), withIncluding(including))
 	}
 
 	if !p.conds[len(p.conds)-1] {
@@ -429,6 +444,23 @@ func WithMode(mode string) Option {
 	return func(p *Parser) {
 		p.mode = mode
 	}
+}
+
+// withIncluding is a parser option recording the chain of files being included.
+func withIncluding(files []string) Option {
+	return func(p *Parser) {
+		p.including = files
+	}
+}
+
+func contains(list []string, s string) bool {
+	for _, e := range list {
+		if e == s {
+			return true
+		}
+	}
+
+	return false
 }
 
 // ParseError is a parse error.
